@@ -147,6 +147,9 @@ def render(model):
     return '\n'.join(out) + '\n'
 
 
+MISSING = 'w_missing_zz'
+
+
 def initial(rnd):
     m = {'env': {}, 'watchers': {}, 'envs': {}, 'comments': []}
     for n in rnd.sample(NAMES, rnd.randint(1, 3)):
@@ -162,7 +165,10 @@ def edit(rnd, m, history):
     present = list(m['watchers'])
     absent = [n for n in NAMES if n not in present]
     kinds = ['numprocesses', 'numprocesses', 'numprocesses-revert', 'cmd', 'args', 'env-global', 'env-named',
-             'opt-add', 'opt-remove', 'opt-modify', 'noop', 'noop']
+             'opt-add', 'opt-remove', 'opt-modify', 'noop', 'noop', 'cmd-break']
+    broken = [x for x in present if m['watchers'][x]['cmd'] == MISSING]
+    if broken:
+        kinds += ['cmd-repair'] * 4
     if absent:
         kinds += ['add-watcher'] * 2
     if len(present) > 1:
@@ -190,6 +196,15 @@ def edit(rnd, m, history):
             return 'numprocesses'
         sec['numprocesses'] = prev[-1]
         return 'numprocesses-revert'
+    if k == 'cmd-break':
+        # a program that does not exist: the watcher gives up after max_retry attempts and stops itself
+        sec['cmd'] = MISSING
+        sec['max_retry'] = '1'
+        return 'cmd-break'
+    if k == 'cmd-repair':
+        n = rnd.choice(broken)
+        m['watchers'][n]['cmd'] = simhist.tag_of(n)
+        return 'cmd-repair'
     if k == 'cmd':
         sec['cmd'] = simhist.tag_of(n) if sec['cmd'] != simhist.tag_of(n) else simhist.tag_of(n) + ' --v2'
         return 'cmd'
@@ -278,6 +293,7 @@ def run_case(spec):
 def fresh_view(path):
     """snapshot of a fresh daemon started on this file"""
     w = simhist.new_world({})
+    w.kernel.spawn_fail_cmds = {MISSING}
     out = {}
 
     @gen.coroutine
@@ -308,6 +324,7 @@ def _chain(versions, d, res):
     with open(path, 'w') as f:
         f.write(render(versions[0]['model']))
     w = simhist.new_world({})
+    w.kernel.spawn_fail_cmds = {MISSING}
     w.kernel.beh_for = lambda argv, n: {15: ('die', 0.15)}      # a stop takes 0.15 s: operations have a duration
     labels = []
     try:
